@@ -20,14 +20,16 @@ def run_spec(spec, retry=True):
 
 
 def _run_spec(spec):
-    try:
-        p = subprocess.run([sys.executable, str(HERE / 'c04_case.py'), json.dumps(spec)], capture_output=True, text=True, timeout=90)
-    except subprocess.TimeoutExpired:
-        return {'spec': spec, 'calls': [], 'crash': 'case-timeout'}
-    for l in p.stdout.splitlines():
+    # (the scenario process may end itself with SIGTERM - the library's last resort inside a forced terminate of a remote
+    # worker - and then leaves its server and a stopped backend behind: see common.run_isolated)
+    from common import run_isolated
+    rc, out, err, timed_out = run_isolated([sys.executable, str(HERE / 'c04_case.py'), json.dumps(spec)], 90)
+    for l in out.splitlines():
         if l.startswith('RESULT '):
             return json.loads(l[7:])
-    return {'spec': spec, 'calls': [], 'crash': f'no-result rc={p.returncode} {p.stderr[-300:]}'}
+    if timed_out:
+        return {'spec': spec, 'calls': [], 'crash': 'case-timeout'}
+    return {'spec': spec, 'calls': [], 'crash': f'no-result rc={rc} {err[-300:]}'}
 
 
 def gen_specs(rng, thorough):
